@@ -151,6 +151,51 @@ pub fn run(input: &Value) -> Value {
           Err(e) => json!({"error": e.to_string()}),
         }
       }
+      "parse_source_and_info" => {
+        // parse_module_source_and_info through the cfg(deno_graph_verif) hook. The media type is realised by the file extension,
+        // the header charset by `content-type: text/plain; charset=utf-16le`; the content is UTF-16LE "1" without a BOM, which
+        // decodes to "1" only if the header charset reaches the decoder (and to "1\0" under the detected UTF-8).
+        struct A(bool);
+        #[async_trait::async_trait(?Send)]
+        impl deno_graph::analysis::ModuleAnalyzer for A {
+          async fn analyze(&self, _s: &ModuleSpecifier, _t: std::sync::Arc<str>, _m: MediaType) -> Result<deno_graph::analysis::ModuleInfo, deno_error::JsErrorBox> {
+            if self.0 { Ok(deno_graph::analysis::ModuleInfo::default()) } else { Err(deno_error::JsErrorBox::generic("analyzer error")) }
+          }
+        }
+        let b = |k: &str| op[k].as_bool().unwrap();
+        let ext = match op["media_type"].as_str().unwrap() {
+          "JavaScript" => "js", "Jsx" => "jsx", "Mjs" => "mjs", "Cjs" => "cjs", "TypeScript" => "ts", "Mts" => "mts", "Cts" => "cts",
+          "Dts" => "d.ts", "Dmts" => "d.mts", "Dcts" => "d.cts", "Tsx" => "tsx", "Css" => "css", "Json" => "json", "Jsonc" => "jsonc",
+          "Json5" => "json5", "Markdown" => "md", "Wasm" => "wasm", "SourceMap" => "map", "Unknown" => "bin", o => panic!("media type {o} is not realisable by extension"),
+        };
+        let scheme = op["scheme"].as_str().unwrap();
+        let spec = ModuleSpecifier::parse(&match scheme { "file" => format!("file:///m.{ext}"), s => format!("{s}://h/m.{ext}") }).unwrap();
+        let headers = if b("has_headers") {
+          let ct = if b("has_charset") { "text/plain; charset=utf-16le" } else { "text/plain" };
+          Some(std::collections::HashMap::from([("content-type".to_string(), ct.to_string())]))
+        } else { None };
+        let mtime = if b("has_mtime") { Some(std::time::UNIX_EPOCH + std::time::Duration::from_secs(5)) } else { None };
+        let is_wasm = op["media_type"] == "Wasm";
+        let content: std::sync::Arc<[u8]> = if is_wasm && b("wasm_ok") { std::sync::Arc::from(vec![0u8, 0x61, 0x73, 0x6d, 1, 0, 0, 0]) } else { std::sync::Arc::from(vec![0x31u8, 0x00u8]) };
+        let attr = op["attribute"].as_str().map(|k| (range(&json!([[0, 0], [0, 1]])), k.to_string()));
+        let referrer = if b("has_referrer") { Some(range(&json!([[1, 0], [1, 1]]))) } else { None };
+        let spr = if b("has_source_phase_referrer") { Some(range(&json!([[2, 0], [2, 1]]))) } else { None };
+        let analyzer = A(b("analyzer_ok"));
+        let r = futures::executor::block_on(verif_parse_module_source_and_info(
+          &analyzer, spec.clone(), headers, mtime, content.clone(), attr, referrer, spr, b("is_root"), b("is_dynamic_branch"), b("unstable_config_imports"),
+        ));
+        match r {
+          Ok(m) => json!({
+            "result": m.kind, "media_type": format!("{:?}", m.media_type), "has_mtime": m.mtime.is_some(), "same_specifier": m.specifier == spec,
+            "charset_used": m.text.as_ref().map(|t| if &**t == "1" { "header-charset" } else { "detected-charset" }),
+            "wasm_bytes_are_the_content": m.bytes.as_ref().map(|x| **x == *content),
+          }),
+          Err(e) => {
+            let d = format!("{:?}", e.as_kind());
+            json!({"result": "err", "err_kind": d.split(|c: char| !c.is_alphanumeric()).next().unwrap()})
+          }
+        }
+      }
       #[cfg(feature = "fast_check")]
       "imported_exports_add" => {
         // C09 lattice kernel through the cfg(deno_graph_verif) hook: values as (kind, [(name, null | [members])])
